@@ -24,7 +24,9 @@ IMPORTS = ("From Coq Require Import String Ascii List ZArith NArith Bool.\n"
 D8 = "d8-append-unquoted-name"
 
 WORD = "abcXYZ019_-=./:,@%+"
-SPECIAL = [" ", "\t", "'", '"', "\\", "$", ";", "*", "#", "~", "(", "&", "|", "`", "!", "\u00e9", "\u65e5"]
+SPECIAL = [" ", "\t", "'", '"', "\\", "$", ";", "*", "#", "~", "(", "&", "|", "`", "!", "\u00e9", "\u65e5", "{", "}", "%"]
+# arguments that mean something to str.format / % formatting: the command is data, never a template
+TEMPLATE_ARGS = ["{}", "{job_name}", "{output_dir}", "{{x}}", '{"a": 1}', "{0}", "%s", "%(name)s", "{", "}{", "{print $1}"]
 WS_RUNS = [" ", " ", " ", "  ", "\t", " \t ", "   ", "\n", " \r\n "]
 
 
@@ -33,6 +35,8 @@ WS_RUNS = [" ", " ", " ", "  ", "\t", " \t ", "   ", "\n", " \r\n "]
 # here from the quoting rules of POSIX shells, independently of shlex and of the model)
 # ---------------------------------------------------------------------------------------------
 def rand_arg(rng, maxlen=8):
+    if rng.random() < 0.12:
+        return rng.choice(TEMPLATE_ARGS)
     n = rng.choice([0, 1, 1, 2, 3, 5, maxlen])
     return "".join(rng.choice(WORD) if rng.random() < 0.55 else rng.choice(SPECIAL) for _ in range(n))
 
@@ -118,7 +122,7 @@ def malformed_stream(rng, tier):
 NAME_ALPHA = "abcXYZ019_-.=" + ", '\"\\$;*#(&\u00e9"
 DIRECTED_NAMES = ["j1", "a b", "it's", 'q"x', "c,d", "-n", "--jade-job-name=x", "a\\b", "le  ad", "'", '"', "\\",
                   "$HOME", "a;b", "a  b", "x" * 150, "None", "name", "\u65e5\u672c", "a'b\"c", "*", "a\tb", "# c", "1",
-                  "a,b,\"c\"", "''", "o'k ay"]
+                  "a,b,\"c\"", "''", "o'k ay", "{job_name}", "a{0}b", "50%s"]
 
 
 def rand_name(rng, used):
@@ -422,7 +426,28 @@ def run_launch(chk, tmp, cmp_gen, cmp_fmt, cmp_read):
         os.makedirs(os.path.dirname(out), exist_ok=True)
         specs = [{"name": c["name"], "command": c["command"], "append_job_name": c["flags"][0], "append_output_dir": c["flags"][1]}
                  for c in chunk]
-        lb = launchdrv.Launch(out, specs, hpc_type=hpc_type, batch_id=b + 1, slurm_job_id=sid or "0")
+        try:
+            lb = launchdrv.Launch(out, specs, hpc_type=hpc_type, batch_id=b + 1, slurm_job_id=sid or "0")
+        except Exception as e:   # noqa
+            # the real runner raised while preparing the batch's jobs (JobRunner._generate_jobs / generate_command):
+            # find the jobs it cannot prepare alone - each is a configured job that is never launched
+            culprits = []
+            for c, sp in zip(chunk, specs):
+                o2 = os.path.join(tmp, f"b{b}_single{len(culprits)}", dname)
+                os.makedirs(os.path.dirname(o2), exist_ok=True)
+                try:
+                    launchdrv.Launch(o2, [sp], hpc_type=hpc_type, batch_id=b + 1, slurm_job_id=sid or "0").restore_env()
+                except Exception as e2:   # noqa
+                    culprits.append((c, sp, repr(e2)[:300]))
+                    if len(culprits) >= 3:
+                        break
+            for c, sp, err in culprits:
+                chk.violation("launch-preparation-raised", "the runner raises while preparing a validly configured job: the batch's jobs are never launched",
+                              {"component": "JobRunner._generate_jobs / GenericCommandExecution.generate_command", "job": sp,
+                               "intended_argv": c.get("intended"), "error": err, "hpc_type": hpc_type})
+            if not culprits:
+                chk.tie_broken("launch driver: preparing a batch raised but no single job reproduces it", repr(e)[:300])
+            continue
         try:
             canceled = {c["name"] for c in chunk if c.get("cancel")}
             lb.run_async_jobs(parallel=core.NCPU, skip=canceled)
